@@ -94,6 +94,14 @@ fn deep(cfg: &Config, total: &mut Report, thorough: bool) {
 			jobs.push((k, d));
 		}
 	}
+	// the flat shapes also with exactly 2^16 - 1, 2^16 and 2^17 repetitions
+	for (ki, k) in DEEP_KINDS.iter().enumerate() {
+		if ki >= 14 {
+			for d in [65_535usize, 65_536, 131_072] {
+				jobs.push((*k, d));
+			}
+		}
+	}
 	let jobs = std::sync::Arc::new(jobs);
 	let j2 = jobs.clone();
 	let rep = crate::monitor::parallel(cfg.threads.min(4), jobs.len(), move |i| {
